@@ -246,7 +246,7 @@ def led__arrow_operator(self: XPathToken, left: XPathToken) -> XPathToken:
         self.parser.advance()
     elif isinstance(next_token, XPathFunction):
         self[:] = left, next_token
-        if next_token.label == 'kind test':
+        if next_token.label == 'kind test' or next_token.symbol == 'function':
             raise next_token.wrong_syntax()
         self.parser.advance()  # Skip static evaluation of function arguments
     else:
